@@ -551,8 +551,10 @@ pub open spec fn node_flag<F: Fn(&Node) -> bool>(f: F, nodes: Seq<Node>) -> spec
           props=('C01', 'C03', 'C06')))
     so.fn('should_cache', F('should_cache', requires='crate::graph_ok(predicate.starts(), predicate.edges@), (node as int) < predicate.nodes@.len()',
           head_proof='assert(predicate.starts().len() == predicate.nodes@.len()); assert(crate::node_ok(predicate.starts(), predicate.edges@, node as int));',
-          # functional result not claimed: vstd's specification of Iterator::any says nothing when the result is false, and the body is a single
-          # expression (no place for the witness step of the other direction); only panic-freedom under graph_ok is proved
+          # one direction only (vstd's specification of Iterator::any says nothing when the result is false): a cached node is a non-deferred node with a deferred child
+          ensures='''r ==> !deferred@.contains(node) && exists|k: int| 0 <= k < crate::node_edges_spec(predicate.starts(), predicate.edges@, node as int)->Some_0.len()
+                        && deferred@.contains(#[trigger] crate::node_edges_spec(predicate.starts(), predicate.edges@, node as int)->Some_0[k])''',
+          closures={0: {'params': 'child: &u16', 'ret': 'b: bool', 'ensures': 'b == deferred@.contains(*child)'}},
           props=('C01', 'C03')))
     so.fn('remove_deferred', F('remove_deferred', ensures="""
             // only nodes of the right kind survive, taken from the input levels, and no level is empty
